@@ -179,6 +179,7 @@ func runC19(c *core.Ctx) {
 
 	// ---- loops
 	checkDecoderLoops(c, codecFuncs)
+	checkNestingDepth(c, "codec.depth", "ast/codec", "Decoder")
 
 	// ---- bounds
 	checkCodecBounds(c, codecFuncs)
